@@ -151,6 +151,31 @@ pub fn generate(tier: &str, seed: u64, out: &Path, nshards: usize, replay: Optio
                 push("straddle", s, &mut shards, &mut meta);
             }
         }
+        // deep nesting: 1..=16 simultaneously open broken scopes (braces; parens / angles made
+        // Big by a brace inside their look-ahead window)
+        for d in 1..=16usize {
+            let opens = ['{', '(', '<'];
+            let closes = ['}', ')', '>'];
+            let all_braces: String = "{".repeat(d) + "a,b" + &"}".repeat(d);
+            push("deep", all_braces, &mut shards, &mut meta);
+            let mut mixed = String::new();
+            for k in 0..d {
+                mixed.push(opens[k % 3]);
+                mixed.push_str("x:");
+            }
+            mixed.push_str("{a,b}");
+            for k in (0..d).rev() {
+                mixed.push(closes[k % 3]);
+            }
+            push("deep", mixed, &mut shards, &mut meta);
+            let mut fields = String::new();
+            for k in 0..d {
+                fields.push_str(&format!("S{k}{{f:u8,g:"));
+            }
+            fields.push_str("()");
+            fields.push_str(&"}".repeat(d));
+            push("deep", fields, &mut shards, &mut meta);
+        }
         // random properly nested strings
         for _ in 0..(400 * scale) {
             let mut s = String::new();
